@@ -6,6 +6,8 @@ cd /verif
 for d in seeded/*/; do
   id=$(basename $d); prop=${id%%-*}
   [ "$id" = "C14-f" ] && prop=C15   # only concurrent renders show it
+  [ "$id" = "C09-g" ] && prop=C15
+  [ "$id" = "C07-g" ] && prop=C20   # needs a registered custom function
   out=$(tools/try_seeded.sh $id $prop $tier 2>&1)
   rc=$(echo "$out" | grep -o "exit=[0-9]*" | tail -1)
   note=""
